@@ -680,23 +680,218 @@ theorem roundPairs_exact (buf : Array ℂ) (c : ℕ → ℤ)
   · rw [List.getElem?_eq_none (by rw [length_roundPairs]; omega),
       List.getElem?_eq_none (by simp; omega)]
 
+/-- The single-transform part of `multiply_into` in exact arithmetic adds the integer convolution (table-free form). -/
+theorem multiplyDirectRef_exact (a b : Array Int) (res : List Int) (ha : a.size ≠ 0) (hb : b.size ≠ 0) :
+    multiplyDirectRef arithC a b res = addPrefix res (convSpec a b) := by
+  unfold multiplyDirectRef convSpec
+  have he : ¬(a.size = 0 ∨ b.size = 0) := by omega
+  rw [if_neg he]
+  obtain ⟨m, hm1, hm2, hm3⟩ := ceilPow2_two_spec (a.size + b.size - 1)
+  simp only []
+  rw [hm2, Nat.log2_two_pow, two_pow_shiftRight_one m hm1]
+  obtain ⟨s1, s2⟩ := multiply_pipeline m hm1 a b (by omega) (by omega) hm3
+  rw [roundPairs_exact _ (convAt a b) (fun q hq => s2 q (by rw [← s1]; exact hq)), s1]
+  congr 1
+  have hn2 : 2 * 2^(m-1) = 2^m := by
+    obtain ⟨q, rfl⟩ : ∃ q, m = q + 1 := ⟨m - 1, by omega⟩
+    rw [Nat.pow_succ]; simp; omega
+  rw [hn2, ← List.map_take, List.take_range, Nat.min_eq_left hm3]
+
+/-! ### the convolution is additive in the long operand: the block recursion of `multiply_into` -/
+
+theorem convAt_of_ge (a b : Array Int) (u : ℕ) (h : a.size + b.size - 1 ≤ u) : convAt a b u = 0 := by
+  unfold convAt
+  rw [sumTo_eq_sum]
+  apply sum_eq_zero
+  intro s hs
+  have := mem_range.1 hs
+  rw [if_neg (by omega)]
+
+/-- coefficient `u` with the second operand read as zero beyond its end -/
+theorem convAt_eq_sumZ (a b : Array Int) (u : ℕ) :
+    convAt a b u = ∑ s ∈ range a.size, if s ≤ u then a.getD s 0 * b.getD (u - s) 0 else 0 := by
+  unfold convAt
+  rw [sumTo_eq_sum]
+  apply sum_congr rfl
+  intro s _
+  by_cases h1 : s ≤ u
+  · rw [if_pos h1]
+    by_cases h2 : u - s < b.size
+    · rw [if_pos ⟨h1, h2⟩]
+    · rw [if_neg (by omega), getD_of_le b (u - s) (by omega), mul_zero]
+  · rw [if_neg h1, if_neg (by omega)]
+
+/-- coefficient `u` as the sum over all pairs `(s, t)` with `s + t = u` -/
+theorem convAt_eq_double (a b : Array Int) (u : ℕ) :
+    convAt a b u = ∑ s ∈ range a.size, ∑ t ∈ range b.size, if s + t = u then a.getD s 0 * b.getD t 0 else 0 := by
+  unfold convAt
+  rw [sumTo_eq_sum]
+  apply sum_congr rfl
+  intro s _
+  by_cases h : s ≤ u ∧ u - s < b.size
+  · rw [if_pos h, sum_eq_single (u - s)]
+    · rw [if_pos (by omega)]
+    · intro t _ ht
+      rw [if_neg (by omega)]
+    · intro hn
+      exact absurd (mem_range.2 h.2) hn
+  · rw [if_neg h]
+    symm
+    apply sum_eq_zero
+    intro t ht
+    have := mem_range.1 ht
+    rw [if_neg (by omega)]
+
+/-- the integer convolution is commutative -/
+theorem convAt_comm (a b : Array Int) (u : ℕ) : convAt a b u = convAt b a u := by
+  rw [convAt_eq_double, convAt_eq_double, sum_comm]
+  apply sum_congr rfl
+  intro t _
+  apply sum_congr rfl
+  intro s _
+  rw [Nat.add_comm s t, mul_comm]
+
+theorem convSpec_comm (a b : Array Int) : convSpec a b = convSpec b a := by
+  unfold convSpec
+  by_cases he : a.size = 0 ∨ b.size = 0
+  · rw [if_pos he, if_pos (by omega)]
+  · rw [if_neg he, if_neg (by omega), Nat.add_comm b.size a.size]
+    apply List.map_congr_left
+    intro u _
+    exact convAt_comm a b u
+
+/-- entry `i` of the product, read as zero beyond its end, is coefficient `i` -/
+theorem getD0_convSpec (a b : Array Int) (i : ℕ) : (convSpec a b)[i]?.getD 0 = convAt a b i := by
+  unfold convSpec
+  by_cases he : a.size = 0 ∨ b.size = 0
+  · rw [if_pos he]
+    symm
+    unfold convAt
+    rw [sumTo_eq_sum]
+    rcases he with he | he
+    · rw [he]; simp
+    · apply sum_eq_zero
+      intro s _
+      rw [if_neg (by omega)]
+  · rw [if_neg he]
+    by_cases hi : i < a.size + b.size - 1
+    · rw [List.getElem?_map, List.getElem?_range hi]; rfl
+    · rw [List.getElem?_eq_none (by simpa using hi), convAt_of_ge a b i (by omega)]; rfl
+
+theorem getD_extract_to_end (long : Array Int) (off j : ℕ) :
+    (long.extract off long.size).getD j 0 = long.getD (off + j) 0 := by
+  by_cases h : off + j < long.size
+  · have h' : j < (long.extract off long.size).size := by simp only [Array.size_extract]; omega
+    rw [Array.getD_eq_getD_getElem?, Array.getD_eq_getD_getElem?, Array.getElem?_eq_getElem h', Array.getElem?_eq_getElem h]
+    simp
+  · rw [getD_of_le _ _ (by simp only [Array.size_extract]; omega), getD_of_le _ _ (by omega)]
+
+theorem getD_extract_block (long : Array Int) (off ss j : ℕ) :
+    (long.extract off (off + ss)).getD j 0 = if j < ss then long.getD (off + j) 0 else 0 := by
+  by_cases h : j < ss
+  · rw [if_pos h]
+    by_cases h2 : off + j < long.size
+    · have h' : j < (long.extract off (off + ss)).size := by simp only [Array.size_extract]; omega
+      rw [Array.getD_eq_getD_getElem?, Array.getD_eq_getD_getElem?, Array.getElem?_eq_getElem h', Array.getElem?_eq_getElem h2]
+      simp
+    · rw [getD_of_le _ _ (by simp only [Array.size_extract]; omega), getD_of_le _ _ (by omega)]
+  · rw [if_neg h, getD_of_le _ _ (by simp only [Array.size_extract]; omega)]
+
+/-- **Additivity of the convolution in the long operand**: the product with `long[off..]` is the product with the
+    block `long[off..off+ss]` plus the product with `long[off+ss..]` shifted by `ss`. -/
+theorem convAt_block_split (short long : Array Int) (off ss i : ℕ) :
+    convAt short (long.extract off long.size) i
+      = convAt short (long.extract off (off + ss)) i
+        + if ss ≤ i then convAt short (long.extract (off + ss) long.size) (i - ss) else 0 := by
+  rw [convAt_eq_sumZ, convAt_eq_sumZ]
+  by_cases hi : ss ≤ i
+  · rw [if_pos hi, convAt_eq_sumZ, ← sum_add_distrib]
+    apply sum_congr rfl
+    intro s _
+    rw [getD_extract_to_end, getD_extract_block]
+    by_cases h1 : s ≤ i
+    · rw [if_pos h1, if_pos h1]
+      by_cases h2 : s ≤ i - ss
+      · rw [if_pos h2, getD_extract_to_end, if_neg (by omega), show off + ss + (i - ss - s) = off + (i - s) by omega]
+        ring
+      · rw [if_neg h2, if_pos (by omega)]
+        ring
+    · rw [if_neg h1, if_neg h1, if_neg (by omega)]
+      ring
+  · rw [if_neg hi, add_zero]
+    apply sum_congr rfl
+    intro s _
+    rw [getD_extract_to_end, getD_extract_block]
+    by_cases h1 : s ≤ i
+    · rw [if_pos h1, if_pos h1, if_pos (by omega)]
+    · rw [if_neg h1, if_neg h1]
+
+/-- the block loop of `multiply_into`, every block adding its exact product: the exact product with the rest of `long` -/
+theorem blockLoop_exact {σ : Type} (short long : Array Int)
+    (rec : (blk : Array Int) → blk.size ≤ short.size → σ → List Int → σ × List Int)
+    (hrec : ∀ blk h s r, blk.size ≠ 0 → (rec blk h s r).2 = addPrefix r (convSpec short blk)) :
+    ∀ (n k : ℕ) (s : σ) (rest : List Int), long.size - k * short.size = n →
+      (blockLoop short long rec k s #[] rest).2
+        = addPrefix rest (convSpec short (long.extract (k * short.size) long.size)) := by
+  intro n
+  induction n using Nat.strongRecOn with
+  | _ n ih =>
+    intro k s rest hn
+    by_cases hc : k * short.size < long.size ∧ 0 < short.size
+    · by_cases hr : rest = []
+      · rw [hr, blockLoop_break, nil_addPrefix]
+      · have hlt : long.size - (k + 1) * short.size < n := by rw [Nat.add_mul]; omega
+        rw [blockLoop_step short long rec k s rest hc hr, ih _ hlt (k + 1) _ _ rfl,
+          hrec _ _ _ _ (by rw [size_extract_block]; omega)]
+        apply addPrefix_slide
+        intro i
+        rw [getD0_convSpec, getD0_convSpec, getD0_convSpec, show (k + 1) * short.size = k * short.size + short.size by
+          rw [Nat.add_mul, Nat.one_mul]]
+        exact convAt_block_split short long (k * short.size) short.size i
+    · rw [blockLoop_stop short long rec k s rest hc]
+      have : convSpec short (long.extract (k * short.size) long.size) = [] := by
+        unfold convSpec
+        by_cases h0 : short.size = 0
+        · rw [if_pos (Or.inl h0)]
+        · rw [if_pos (Or.inr (by simp only [Array.size_extract]; omega))]
+      rw [this, addPrefix_nil]
+
+/-- **The block recursion of `multiply_into` around an exact single-transform part is exact**: operand order,
+    blocks of the longer operand, ragged last block, destination of any length. -/
+theorem mulBlocks_exact {σ : Type} (direct : σ → Array Int → Array Int → List Int → σ × List Int)
+    (hd : ∀ s a b res, a.size ≠ 0 → b.size ≠ 0 → (direct s a b res).2 = addPrefix res (convSpec a b)) :
+    ∀ (n : ℕ) (a b : Array Int), a.size + b.size = n → ∀ s res,
+      (mulBlocks direct s a b res).2 = addPrefix res (convSpec a b) := by
+  intro n
+  induction n using Nat.strongRecOn with
+  | _ n ih =>
+    intro a b hn s res
+    rw [mulBlocks_eq]
+    by_cases he : a.size = 0 ∨ b.size = 0
+    · rw [if_pos he]
+      unfold convSpec
+      rw [if_pos he, addPrefix_nil]
+    · rw [if_neg he]
+      by_cases hab : a.size ≤ b.size
+      · rw [if_pos hab]
+        by_cases h : b.size > 2 * a.size
+        · rw [if_pos h, blockLoop_exact a b _
+            (fun blk hb s r h0 => ih (a.size + blk.size) (by omega) a blk rfl s r) _ 0 s res rfl]
+          simp
+        · rw [if_neg h]; exact hd s a b res (by omega) (by omega)
+      · rw [if_neg hab]
+        by_cases h : a.size > 2 * b.size
+        · rw [if_pos h, blockLoop_exact b a _
+            (fun blk hb' s r h0 => ih (b.size + blk.size) (by omega) b blk rfl s r) _ 0 s res rfl]
+          simp only [Nat.zero_mul, Array.extract_size]
+          rw [convSpec_comm]
+        · rw [if_neg h]; exact hd s a b res (by omega) (by omega)
+
 /-- **`multiply_into` in exact arithmetic adds the integer convolution** (table-free form). -/
 theorem multiplyIntoRef_exact (a b : Array Int) (res : List Int) :
     multiplyIntoRef arithC a b res = addPrefix res (convSpec a b) := by
-  unfold multiplyIntoRef convSpec
-  by_cases he : a.size = 0 ∨ b.size = 0
-  · rw [if_pos he, if_pos he, addPrefix_nil]
-  · rw [if_neg he, if_neg he]
-    obtain ⟨m, hm1, hm2, hm3⟩ := ceilPow2_two_spec (a.size + b.size - 1)
-    simp only []
-    rw [hm2, Nat.log2_two_pow, two_pow_shiftRight_one m hm1]
-    obtain ⟨s1, s2⟩ := multiply_pipeline m hm1 a b (by omega) (by omega) hm3
-    rw [roundPairs_exact _ (convAt a b) (fun q hq => s2 q (by rw [← s1]; exact hq)), s1]
-    congr 1
-    have hn2 : 2 * 2^(m-1) = 2^m := by
-      obtain ⟨q, rfl⟩ : ∃ q, m = q + 1 := ⟨m - 1, by omega⟩
-      rw [Nat.pow_succ]; simp; omega
-    rw [hn2, ← List.map_take, List.take_range, Nat.min_eq_left hm3]
+  unfold multiplyIntoRef
+  exact mulBlocks_exact _ (fun _ a b res ha hb => multiplyDirectRef_exact a b res ha hb) _ a b rfl () res
 
 
 theorem accC_spec {K : Type} (A : Arith K) (res buf : Array K) :
@@ -746,14 +941,6 @@ theorem pointwise_spec (fa fb : Array ℂ) (n : ℕ) (ha : fa.size = n) (hb : fb
   apply rdA_of_getElem?
   rw [Array.getElem?_ofFn, dif_pos (by rw [ha, hb]; simpa using hp)]
   rfl
-
-theorem convAt_of_ge (a b : Array Int) (u : ℕ) (h : a.size + b.size - 1 ≤ u) : convAt a b u = 0 := by
-  unfold convAt
-  rw [sumTo_eq_sum]
-  apply sum_eq_zero
-  intro s hs
-  have := mem_range.1 hs
-  rw [if_neg (by omega)]
 
 /-- `fft_inv` applied to the transform of an integer sequence `c` of length `2^m`: the sequence itself. -/
 theorem addPrefix_zeros_self : ∀ (l : List Int), addPrefix (List.replicate l.length 0) l = l := by
